@@ -668,6 +668,22 @@ class Concatenator(Group):  # pylint: disable=too-many-public-methods
 
         alias = KEY_MAP.get(field, field)
 
+        if (
+            isinstance(entity, Data)
+            and isinstance(values, np.ndarray)
+            and not remove
+            and alias in self.data
+            and isinstance(self.data[alias], np.ndarray)
+            and len(self.data[alias]) > 0
+            and (self.data[alias].dtype.kind in "SUO")
+            != (values.dtype.kind in "SUO")
+        ):
+            # One array per name for the whole group: text and numbers cannot share it
+            raise TypeError(
+                f"Values of '{field}' cannot be stored with the values of type "
+                f"'{self.data[alias].dtype}' held under that name by the group."
+            )
+
         start = self.fetch_start_index(entity, alias)
 
         if values is not None and not remove:
